@@ -325,7 +325,12 @@ macro_rules! ss_impl {
                 true
             }
             fn public_bits(&self) -> Vec<u64> {
-                self.0.get_signature().iter().map(|x| *x as u64).collect()
+                // the registers and what the sketcher's own estimator says about them (everything public)
+                let mut v: Vec<u64> = self.0.get_signature().iter().map(|x| *x as u64).collect();
+                let (card, rsd) = self.0.get_cardinal_stats();
+                v.push(card.to_bits());
+                v.push(rsd.to_bits());
+                v
             }
             fn extras(&self) -> Value {
                 json!({"low": self.0.get_low_sketch(), "ovf": self.0.get_nb_overflow()})
